@@ -3,7 +3,7 @@ CONSTANTS
   Conns = {c1, c2}
   MaxReq = 1
   NoChk2 = FALSE
-  DecBeforeClose = FALSE  NoChk3 = FALSE
+  DecBeforeClose = FALSE  NoChk3 = TRUE
 INVARIANTS NoForwardAfterShutdown NilOnlyWhenDrained ErrOnlyIfCtx ClosedAfterInflight CountSane
 PROPERTIES ForwardedCompletes AfterCloseAllClosed CountReturnsToZero
 CHECK_DEADLOCK FALSE
